@@ -346,14 +346,27 @@ Qed.
 End NumProofs.
 
 (* ---- lexCode ---- *)
-Definition cpost (s : cst) (r : step cst) : Prop :=
-  match r with Again s' => prog text (c_l s) (c_l s') | Stop s' => ext text (c_l s) (c_l s') end.
+(* when lexCode returns nil the closing delimiter is in front *)
+Definition closing (endt : N) (l : lexer) : Prop :=
+  if endt =? gen_tokenRightBraces then 2 <= len l
+  else if endt =? gen_tokenEndStatement then 2 <= len l
+  else if endt =? gen_tokenEndStatements then 3 <= len l
+  else True.
 
-Lemma opk_safe typ n e s :
-  INV text (c_l s) -> 1 <= n -> n <= len (c_l s) -> safe (opk typ n e s) (cpost s) (ext text (c_l s)).
+Definition cpost (endt : N) (s : cst) (r : step cst) : Prop :=
+  match r with
+  | Again s' => prog text (c_l s) (c_l s') /\ c_ret s' = c_ret s
+  | Stop s' => ext text (c_l s) (c_l s') /\ (c_ret s' = true -> c_ret s = true \/ closing endt (c_l s'))
+  end.
+
+Ltac closing_tac :=
+  unfold closing; repeat match goal with |- context [if ?b then _ else _] => destruct b end; fin.
+
+Lemma opk_safe endt typ n e s :
+  INV text (c_l s) -> 1 <= n -> n <= len (c_l s) -> safe (opk typ n e s) (cpost endt s) (ext text (c_l s)).
 Proof.
   intros Hi Hn1 Hn2. unfold opk. destruct (emitc_spec text typ n (c_l s) Hi Hn2) as (l' & He & Hi' & Hb & _).
-  rewrite He. simpl. split; [exact Hi'|lia].
+  rewrite He. simpl. split; [split; [exact Hi'|lia]|reflexivity].
 Qed.
 
 Lemma auto_semi_safe e l :
@@ -366,7 +379,7 @@ Qed.
 
 Lemma code_ident_safe endt first c s :
   INV text (c_l s) -> get (l_src (c_l s)) 0 = Some c ->
-  safe (code_ident U endt first c s) (cpost s) (ext text (c_l s)).
+  safe (code_ident U endt first c s) (cpost endt s) (ext text (c_l s)).
 Proof.
   intros Hi Hc. pose proof (get_some _ _ _ Hc) as Hl. fold (len (c_l s)) in Hl.
   assert (He : ext text (c_l s) (c_l s)) by (apply ext_refl; exact Hi).
@@ -400,10 +413,14 @@ Proof.
       assert (Hs1 : same_core l1 (c_l S1)).
       { unfold S1. repeat match goal with |- context [if ?b then _ else _] => destruct b end;
           try destruct (l_ctxs l1); cbn; auto with sc; repeat split. }
-      simpl. destruct Hr as [Hr1 Hr2]. split; [eapply same_core_INV; [exact Hs1|exact Hr1]|].
+      assert (Hr1' : c_ret S1 = c_ret s).
+      { unfold S1. repeat match goal with |- context [if ?b then _ else _] => destruct b end;
+          try destruct (l_ctxs l1); reflexivity. }
+      simpl. destruct Hr as [Hr1 Hr2]. split; [|exact Hr1'].
+      split; [eapply same_core_INV; [exact Hs1|exact Hr1]|].
       destruct Hs1 as (_ & Hb & _). lia.
     + destruct (advance_spec text 3 (c_l s) Hi Hr) as (l' & Ha & Hi' & Hb & _).
-      rewrite Ha. simpl. split; [exact Hi'|lia].
+      rewrite Ha. simpl. split; [split; [exact Hi'|lia]|reflexivity].
 Qed.
 
 Ltac cstep :=
@@ -413,15 +430,16 @@ Ltac cstep :=
   end.
 
 Lemma code_body_safe endt first s :
-  INV text (c_l s) -> safe (code_body U endt first s) (cpost s) (ext text (c_l s)).
+  INV text (c_l s) -> safe (code_body U endt first s) (cpost endt s) (ext text (c_l s)).
 Proof.
   intros Hi. assert (He : ext text (c_l s) (c_l s)) by (apply ext_refl; exact Hi).
-  unfold code_body. destruct (N.eqb_spec (len (c_l s)) 0) as [Hz|Hz]; [simpl; exact He|].
+  assert (HeS : cpost endt s (Stop s)) by (split; [exact He|auto]).
+  unfold code_body. destruct (N.eqb_spec (len (c_l s)) 0) as [Hz|Hz]; [simpl; exact HeS|].
   sstep.
   assert (Hsub : forall (f : lexer -> res lexer) e,
             safe (f (c_l s)) (prog text (c_l s)) (ext text (c_l s)) ->
-            safe (let* l1 := f (c_l s) in Ok (Again (cset_l l1 e s))) (cpost s) (ext text (c_l s))).
-  { intros f e Hf. eapply safe_bind; [exact Hf|]. intros l1 Hp. exact Hp. }
+            safe (let* l1 := f (c_l s) in Ok (Again (cset_l l1 e s))) (cpost endt s) (ext text (c_l s))).
+  { intros f e Hf. eapply safe_bind; [exact Hf|]. intros l1 Hp. split; [exact Hp|reflexivity]. }
   assert (Hnum : is_digit09 c = true \/ c = 46 -> safe (lex_number (c_l s)) (prog text (c_l s)) (ext text (c_l s))).
   { intros Hd. eapply lex_number_safe; eauto. }
   destruct (c =? 34); [apply Hsub, lex_string_safe; [exact Hi|lia]|].
@@ -439,9 +457,9 @@ Proof.
   all: try (apply code_ident_safe; assumption).
   all: assert (Hl1 : 1 <= len (c_l s)) by lia.
   all: assert (Hws : safe (let* l1 := advance 1 (c_l s) in Ok (Again (cset_l (addcol 1 l1) (c_elas s) s)))
-                          (cpost s) (ext text (c_l s))) by
+                          (cpost endt s) (ext text (c_l s))) by
        (destruct (advance_spec text 1 (c_l s) Hi Hl1) as (l' & Ha & Hi' & Hb & _); rewrite Ha; simpl;
-        split; [eapply same_core_INV; [|exact Hi']; auto with sc|simpl; lia]).
+        split; [split; [eapply same_core_INV; [|exact Hi']; auto with sc|simpl; lia]|reflexivity]).
   all: try (destruct ((c =? 32) || (c =? 9) || (c =? 13)); [exact Hws|]).
   all: try (apply opk_safe; auto; fin).
   all: try (apply code_ident_safe; assumption).
@@ -449,7 +467,7 @@ Proof.
   - (* slash *)
     cstep; cbn [oeq]; [apply opk_safe; auto; fin|].
     destruct (x =? 47).
-    { destruct (index_nl_bom (l_src (c_l s))) as [p|] eqn:Ein; [|simpl; exact He].
+    { destruct (index_nl_bom (l_src (c_l s))) as [p|] eqn:Ein; [|simpl; exact HeS].
       pose proof (index_nl_bom_bound _ _ Ein) as Hp. fold (len (c_l s)) in Hp.
       sstep. destruct (negb (c0 =? 10)); [simpl; exact He|].
       destruct (advance_spec text p (c_l s) Hi ltac:(lia)) as (l1 & Ha & Hi1 & Hb1 & _ & Hl1' & _).
@@ -460,7 +478,7 @@ Proof.
       assert (Hln : len (newline l2) = len l2) by reflexivity.
       assert (Hlm : len (mark_cdev l1) = len l1) by reflexivity.
       destruct (advance_spec text 1 (newline l2) Hin ltac:(lia)) as (l3 & H3 & Hi3 & Hb3 & _).
-      rewrite H3. simpl. split; [exact Hi3|]. cbn in Hb3, Hb2. lia. }
+      rewrite H3. simpl. split; [|reflexivity]. split; [exact Hi3|]. cbn in Hb3, Hb2. lia. }
     destruct (x =? 42).
     { destruct (advance_spec text 2 (c_l s) Hi ltac:(fin)) as (l1 & Ha & Hi1 & Hb1 & _ & Hl1' & _).
       rewrite Ha, bind_ok.
@@ -474,70 +492,80 @@ Proof.
         rewrite Ha2, bind_ok.
         assert (Him : INV text (mark_cdev l2)) by (eapply same_core_INV; [|exact Hi2]; auto with sc).
         destruct (auto_semi_safe (c_elas s) (mark_cdev l2) Him) as (l3 & H3 & Hi3 & Hb3 & Hl3). rewrite H3, bind_ok.
-        simpl. split.
+        simpl. split; [|reflexivity]. split.
         + eapply same_core_INV; [|exact Hi3]. destruct (1 <? count_nl (take p (l_src l1))); repeat split.
         + cbn in Hb3. destruct (1 <? count_nl (take p (l_src l1))); cbn; lia.
       - rewrite bind_ok. cbn iota beta.
         destruct (advance_spec text (p + 2) l1 Hi1 ltac:(lia)) as (l2 & Ha2 & Hi2 & Hb2 & _).
-        rewrite Ha2, bind_ok. simpl. split; [eapply same_core_INV; [|exact Hi2]; auto with sc|cbn; lia]. }
+        rewrite Ha2, bind_ok. simpl. split; [|reflexivity]. split; [eapply same_core_INV; [|exact Hi2]; auto with sc|cbn; lia]. }
     destruct (x =? 61); apply opk_safe; auto; fin.
   - (* percent *)
     cstep; cbn [oeq]; [apply opk_safe; auto; fin|].
     destruct (x =? 125).
-    { destruct (endt =? gen_tokenEndStatement).
-      - unfold safe, cpost. cbn [c_l creturn].
-        destruct (c_idi s =? l_tot (c_l s)); [|exact He].
-        destruct (find_index gen_formatTypeName (c_idt s) 0); [|exact He].
+    { destruct (endt =? gen_tokenEndStatement) eqn:Heqb.
+      - unfold safe, cpost. cbn [c_l creturn c_ret].
+        assert (Hcl : forall l', len l' = len (c_l s) -> closing endt l').
+        { intros l' Hl'. unfold closing. rewrite Heqb. destruct (endt =? gen_tokenRightBraces); fin. }
+        destruct (c_idi s =? l_tot (c_l s)); [|split; [exact He|intros _; right; apply Hcl; reflexivity]].
+        destruct (find_index gen_formatTypeName (c_idt s) 0); [|split; [exact He|intros _; right; apply Hcl; reflexivity]].
+        split; [|intros _; right; apply Hcl; reflexivity].
         split; [eapply same_core_INV; [|exact Hi]; auto with sc|cbn; lia].
       - destruct ((endt =? gen_tokenRightBraces) || (endt =? gen_tokenEndStatements)); [simpl; exact He|].
         apply opk_safe; auto; fin. }
     destruct (x =? 37).
     { cstep; cbn [oeq negb]; [apply opk_safe; auto; fin|].
       destruct (negb (x0 =? 125)); [apply opk_safe; auto; fin|].
-      destruct (endt =? gen_tokenEndStatements).
-      - destruct (auto_semi_safe (c_elas s) (c_l s) Hi) as (l1 & H1 & Hi1 & Hb1 & _). rewrite H1, bind_ok.
-        simpl. split; [exact Hi1|lia].
+      destruct (endt =? gen_tokenEndStatements) eqn:Heqb.
+      - destruct (auto_semi_safe (c_elas s) (c_l s) Hi) as (l1 & H1 & Hi1 & Hb1 & Hl1''). rewrite H1, bind_ok.
+        simpl. split; [split; [exact Hi1|lia]|]. intros _. right. unfold closing. rewrite Heqb.
+        destruct (endt =? gen_tokenRightBraces); [fin|]. destruct (endt =? gen_tokenEndStatement); fin.
       - destruct ((endt =? gen_tokenRightBraces) || (endt =? gen_tokenEndStatement)); [simpl; exact He|].
         apply opk_safe; auto; fin. }
     destruct (x =? 61); apply opk_safe; auto; fin.
   - (* left brace *)
     destruct (emitc_spec text gen_tokenLeftBrace 1 (c_l s) Hi Hl1) as (l1 & H1 & Hi1 & Hb1 & _).
-    rewrite H1, bind_ok. simpl. destruct (endt =? gen_tokenRightBraces); simpl; (split; [exact Hi1|lia]).
+    rewrite H1, bind_ok. simpl. destruct (endt =? gen_tokenRightBraces); simpl; (split; [split; [exact Hi1|lia]|reflexivity]).
   - (* right brace *)
-    eapply safe_bind with (Q' := fun r => match r with Some s1 => c_l s1 = c_l s | None => True end).
-    + destruct (endt =? gen_tokenRightBraces); [|simpl; reflexivity].
-      repeat (cbn [oeq]; cstep); simpl; auto; destruct (0 <? c_ulb s); reflexivity.
-    + intros [s1|] Hs1; [|simpl; exact He].
-      eapply safe_mono; [apply opk_safe; rewrite ?Hs1; auto; fin| |].
-      * intros [s'|s']; unfold cpost; rewrite Hs1; auto.
+    eapply safe_bind with (Q' := fun r => match r with Some s1 => c_l s1 = c_l s /\ c_ret s1 = c_ret s
+                                            | None => closing endt (c_l s) end).
+    + destruct (endt =? gen_tokenRightBraces) eqn:Heqb; [|simpl; split; reflexivity].
+      repeat (cbn [oeq]; cstep); simpl; auto; try (destruct (0 <? c_ulb s); split; reflexivity);
+        unfold closing; rewrite Heqb; fin.
+    + intros [s1|] Hs1; [|simpl; split; [exact He|intros _; right; exact Hs1]].
+      destruct Hs1 as [Hs1 Hs2].
+      eapply safe_mono; [apply (opk_safe endt); rewrite ?Hs1; auto; fin| |].
+      * intros [s'|s']; unfold cpost; rewrite Hs1, Hs2; auto.
       * rewrite Hs1. auto.
   - (* new line *)
     destruct (auto_semi_safe (c_elas s) (c_l s) Hi) as (l1 & H1 & Hi1 & Hb1 & Hl1'). rewrite H1, bind_ok.
     assert (Hin : INV text (newline l1)) by (eapply same_core_INV; [|exact Hi1]; auto with sc).
     assert (Hln : len (newline l1) = len l1) by reflexivity.
     destruct (advance_spec text 1 (newline l1) Hin ltac:(lia)) as (l2 & H2 & Hi2 & Hb2 & _).
-    rewrite H2. simpl. split; [exact Hi2|]. cbn in Hb2. lia.
+    rewrite H2. simpl. split; [|reflexivity]. split; [exact Hi2|]. cbn in Hb2. lia.
 Qed.
 
 Lemma lex_code_safe endt l :
-  INV text l -> safe (lex_code U endt l) (ext text l) (ext text l).
+  INV text l -> safe (lex_code U endt l) (fun l' => ext text l l' /\ (endt = gen_tokenEOF \/ closing endt l')) (ext text l).
 Proof.
   intros Hi. assert (He : ext text l l) by (apply ext_refl; exact Hi).
-  unfold lex_code. destruct (len l =? 0); [destruct (negb (endt =? gen_tokenEOF)); simpl; exact He|].
+  unfold lex_code. destruct (len l =? 0).
+  { destruct (N.eqb_spec endt gen_tokenEOF); simpl; [split; [exact He|left; assumption]|exact He]. }
   eapply safe_bind.
-  - apply (safe_loop (code_body U endt (l_tot l + 1)) (fun s => ext text l (c_l s))
-             (fun s => N.to_nat (len (c_l s))) (fun s => ext text l (c_l s))) with (E := ext text l).
-    + intros s Hs. eapply safe_mono; [apply code_body_safe; apply Hs| |].
+  - apply (safe_loop (code_body U endt (l_tot l + 1)) (fun s => ext text l (c_l s) /\ c_ret s = false)
+             (fun s => N.to_nat (len (c_l s)))
+             (fun s => ext text l (c_l s) /\ (c_ret s = true -> closing endt (c_l s)))) with (E := ext text l).
+    + intros s [Hs Hr]. eapply safe_mono; [apply code_body_safe; apply Hs| |].
       * intros [s'|s'] Hp; simpl in Hp.
-        { split; [eapply ext_trans; [exact Hs|apply prog_ext; exact Hp]|].
+        { destruct Hp as [Hp Hr']. split; [split; [eapply ext_trans; [exact Hs|apply prog_ext; exact Hp]|congruence]|].
           destruct Hp as [Hp1 Hp2]. pose proof (INV_len _ _ Hp1). pose proof (INV_len _ _ (proj1 Hs)). lia. }
-        { eapply ext_trans; eauto. }
+        { destruct Hp as [Hp Hr']. split; [eapply ext_trans; eauto|].
+          intros Ht. destruct (Hr' Ht); [congruence|assumption]. }
       * intros l' Hl'. eapply ext_trans; eauto.
-    + simpl. exact He.
+    + simpl. split; [exact He|reflexivity].
     + simpl. unfold len. rewrite nlen_eq. lia.
-  - intros s Hs. destruct (c_ret s); [simpl; exact Hs|].
-    destruct (negb (endt =? gen_tokenEOF)); [simpl; exact Hs|].
+  - intros s [Hs Hc]. destruct (c_ret s); [simpl; split; [exact Hs|right; auto]|].
+    destruct (N.eqb_spec endt gen_tokenEOF); cbn [negb]; [|simpl; exact Hs].
     destruct (auto_semi_safe (c_elas s) (c_l s) (proj1 Hs)) as (l1 & H1 & Hi1 & Hb1 & _). rewrite H1. simpl.
-    split; [exact Hi1|]. destruct Hs. lia.
+    split; [|left; assumption]. split; [exact Hi1|]. destruct Hs. lia.
 Qed.
 End CodeProofs.
